@@ -270,6 +270,12 @@ mut('cached-tail-pointer', 'UncompressedFile.h', [["    /** mutex */\n    mutabl
 mut('container-skipped-when-reader-ahead', 'UncompressedFile.cpp', [["    /* close a partly filled log container, so that the appended one continues at the put position */", "    if (m_tellp < m_tellg) {\n        m_tellp += logContainer->uncompressedFileSize;\n        tellpChanged.notify_all();\n        return;\n    }\n\n    /* close a partly filled log container, so that the appended one continues at the put position */"]],
     ['C09', 'C15', 'C01'], ['R5|UncompressedFile::write/container'], 'a container that starts behind the get position but ends in front of it is thrown away')
 
+UPTR0 = ["#include <iostream>\n", "#include <iostream>\n#include <memory>\n"]
+UPTR1 = ["    /* create object */\n    ObjectHeaderBase * obj = createObject(ohb.objectType);", "    /* create object (owned here until it is handed over) */\n    std::unique_ptr<ObjectHeaderBase> owner(createObject(ohb.objectType));\n    ObjectHeaderBase * obj = owner.get();"]
+UPTR2 = ["    m_readWriteQueue.write(obj);\n\n    /* drop old data */", "    m_readWriteQueue.write(owner.release());\n\n    /* drop old data */"]
+mut('smart-owner-plus-leftover-delete', 'File.cpp', [UPTR0, UPTR1, UPTR2],
+    ['C13'], ['O2|File::uncompressedFile2ReadWriteQueue|owner'], 'the error path still deletes the object the unique_ptr owns: double free on a truncated object')
+
 # ------------------------------------------------------------------ benign refactorings (must stay silent)
 ALL_LAYOUT = ['C01', 'C02', 'C03', 'C10', 'C14']
 ben('reorder-size-terms', 'AppText.cpp', [["        sizeof(source) +\n        sizeof(reservedAppText1) +", "        sizeof(reservedAppText1) +\n        sizeof(source) +"]], ALL_LAYOUT)
@@ -324,6 +330,12 @@ ben('gcount-local-accumulator', 'UncompressedFile.cpp', [["    m_gcount = 0;\n  
 ben('reposition-inline-condition', 'File.cpp', [["    const std::streamoff readTooMuch = m_uncompressedFile.tellg() - (objectBegin + static_cast<std::streamoff>(ohb.objectSize));\n    if (readTooMuch > 0) {\n        m_uncompressedFile.seekg(-readTooMuch, std::ios_base::cur);\n    }\n",
                                                  "    const std::streampos objectEnd = objectBegin + static_cast<std::streamoff>(ohb.objectSize);\n    const std::streamoff readTooMuch = m_uncompressedFile.tellg() - objectEnd;\n    if (readTooMuch > 0)\n        m_uncompressedFile.seekg(-readTooMuch, std::ios_base::cur);\n"]],
     ['C10', 'C09', 'C01', 'C11', 'C12', 'C06'], 'the declared end as a named local')
+UPTR1 = ["    /* create object */\n    ObjectHeaderBase * obj = createObject(ohb.objectType);", "    /* create object (owned here until it is handed over) */\n    std::unique_ptr<ObjectHeaderBase> owner(createObject(ohb.objectType));\n    ObjectHeaderBase * obj = owner.get();"]
+UPTR2 = ["    m_readWriteQueue.write(obj);\n\n    /* drop old data */", "    m_readWriteQueue.write(owner.release());\n\n    /* drop old data */"]
+UPTR3 = ["        delete obj;\n        throw Exception(\"File::uncompressedFile2ReadWriteQueue(): Read beyond end of file.\");", "        throw Exception(\"File::uncompressedFile2ReadWriteQueue(): Read beyond end of file.\");"]
+UPTR0 = ["#include <iostream>\n", "#include <iostream>\n#include <memory>\n"]
+ben('decoded-object-in-unique-ptr', 'File.cpp', [UPTR0, UPTR1, UPTR2, UPTR3], ['C11', 'C13', 'C10', 'C08', 'C01', 'C09', 'C12'],
+    'the complete conversion to a smart owner (the left-over delete removed): seed C13-r3b without its defect')
 ben('header-guard-positive-form', 'File.cpp', [["    if (ohb.objectSize < ohb.calculateHeaderSize()) {\n        /* an object cannot be smaller than its header; skipping by such a size would never advance */\n        throw Exception(\"File::uncompressedFile2ReadWriteQueue(): Object size is smaller than the object header.\");\n    }\n",
                                                   "    if (!(ohb.objectSize >= ohb.calculateHeaderSize())) {\n        throw Exception(\"File::uncompressedFile2ReadWriteQueue(): Object size is smaller than the object header.\");\n    }\n"]], ['C10', 'C09', 'C08', 'C01'])
 ben('close-extract-helpers', 'File.cpp', [["void File::close() {\n    /* check if file is open */\n    if (!is_open())\n        return;\n\n    /* read */\n    if (m_openMode & std::ios_base::in) {\n        /* finalize compressedFileThread */\n        m_compressedFileThreadRunning = false;\n        m_compressedFile.close();\n\n        /* finalize uncompressedFileThread */\n        m_uncompressedFileThreadRunning = false;\n        m_uncompressedFile.abort();\n\n        /* abort readWriteQueue */\n        m_readWriteQueue.abort();\n\n        /* finalize compressedFileThread */\n        if (m_compressedFileThread.joinable())\n            m_compressedFileThread.join();\n\n        /* finalize uncompressedFileThread */\n        if (m_uncompressedFileThread.joinable())\n            m_uncompressedFileThread.join();\n    }\n",
